@@ -9,7 +9,9 @@ plan = {"dir": scratch dir, "nfiles": 2..5, "workers": 1..4, "file": index
         | "exit" | "bad_utf8" | "none", "k": ordinal for the
         counted points, "t1": seconds allowed for run 1, "t2": for run 2,
         "hold": seconds to stay at the point before firing (default 0),
-        "park": optional {"file": j, "secs": s}: the worker of file j stays
+        "slow": optional {"file": j, "secs": s}: the worker of file j pauses
+        s seconds at its first line (a sibling still busy when the fault
+        fires), "park": optional {"file": j, "secs": s}: the worker of file j stays
         s seconds INSIDE preallocate's locked region (sibling-termination
         experiments)}
 
@@ -65,6 +67,15 @@ def _fire():
     os.write(fd, f"{os.getpid()}".encode())
     os.close(fd)
     kind = PLAN['kind']
+    if os.getpid() == PARENT:
+        # the task is being executed by the process that called run(): the
+        # abrupt end of the executing process is the end of the caller
+        OUT['in_process'] = True
+        if kind == 'exit':
+            OUT.update(run1='caller-killed', run1_latency=None, fired=True,
+                       run2='not-run', store_lock_held=False,
+                       collection_lock_held=False, left1=None)
+            emit_and_exit()
     if kind == 'exit':
         os._exit(3)
     if kind == 'raise':
@@ -86,7 +97,7 @@ def _fire():
 def at(point):
     """ called by every wrapper; fires the plan when it names this point,
     this ordinal, in the worker handling the chosen file """
-    if not ARMED[0] or os.getpid() == PARENT:
+    if not ARMED[0]:
         return
     if point == 'alloc_inside_lock' and CUR['path'] is not None and \
             CUR['path'] == _parkfile():
@@ -94,6 +105,13 @@ def at(point):
         CUR['counts']['park'] = n + 1
         if n == 0:
             time.sleep(PLAN['park']['secs'])
+    slow = PLAN.get('slow')
+    if slow and point == 'line' and CUR['path'] is not None and \
+            CUR['path'] == PLAN['_paths'][slow['file']]:
+        n = CUR['counts'].get('slow', 0)
+        CUR['counts']['slow'] = n + 1
+        if n == 0:
+            time.sleep(slow['secs'])      # a sibling that is still busy
     if PLAN['kind'] in ('none', 'bad_utf8') or PLAN['point'] != point:
         return
     if CUR['path'] != _target():
@@ -403,6 +421,7 @@ def main():
     st1.set()
     ARMED[0] = False
     OUT['fired'] = os.path.exists(FIRED_FLAG)
+    OUT['left1_now'] = leftovers(0)     # at the moment run() ended
     OUT['left1'] = leftovers()
     OUT['store_lock_held'] = probe(RS.RESULTS_STORE_LOCK)
     OUT['collection_lock_held'] = probe(S.RESULTS_COLLECTION_LOCK)
